@@ -1,4 +1,4 @@
-CONSTANTS AccessSample = 0 RouteSample = 0 CredSample = 0
+CONSTANTS AccessSample = 120000 RouteSample = 0 CredSample = 0
 INIT InitAccess
 NEXT Next
 CONSTRAINT Emit
